@@ -1052,7 +1052,10 @@ func prewriteMutation(db *leveldb.DB, batch *leveldb.Batch,
 			// The minCommitTS has been pushed forward.
 			minCommitTS = dec.lock.minCommitTS
 		}
-		_, err = checkConflictValue(iter, mutation, startTS, startTS, false, assertionLevel, false, false)
+		// No write conflict check here: the key is protected by the transaction's own pessimistic lock
+		// since its for_update_ts, which may be newer than commits after start_ts (as in TiKV). Assertions
+		// are still checked.
+		_, err = checkConflictValue(iter, mutation, math.MaxUint64, startTS, false, assertionLevel, false, false)
 		if err != nil {
 			return err
 		}
